@@ -478,7 +478,9 @@ func hyperLoaderErrors(c *Ctx, rule string) {
 					pn := hasCond(pcs, func(k Cond) bool {
 						return !k.Pol && k.Atom.Op == "EQ" && (k.Atom.Args[0].V == errV || k.Atom.Args[1].V == errV) && (strings.Contains(k.Atom.Args[0].String(), "ErrKeyNotFound") || strings.Contains(k.Atom.Args[1].String(), "ErrKeyNotFound"))
 					})
-					if pn && hasCond(pcs, func(k Cond) bool { return !k.Pol && k.Atom.Op == "EQ" && (k.Atom.Args[0].V == errV || k.Atom.Args[1].V == errV) && (k.Atom.Args[0].Name == "nil" || k.Atom.Args[1].Name == "nil") }) {
+					if pn && hasCond(pcs, func(k Cond) bool {
+						return !k.Pol && k.Atom.Op == "EQ" && (k.Atom.Args[0].V == errV || k.Atom.Args[1].V == errV) && (k.Atom.Args[0].Name == "nil" || k.Atom.Args[1].Name == "nil")
+					}) {
 						continue
 					}
 				}
